@@ -621,7 +621,12 @@ Definition C09_round (c : ccfg) (r : round) : option string :=
 
 Definition C07_check := check_with (fun c r =>
   orelse (C07_round c r) (orelse (C07_condition c r) (C08_no_wait_on_healthy c r))) proj_all true.
-Definition C09_check := check_with C09_round proj_all true.
+(* after any crash cut or revision-write fault the rollout still ends where an uninterrupted one does *)
+Definition C09_check (c : ccase) : verdict :=
+  match C08_final c with
+  | Some w => PROPFAIL ("after-interruption-" ++ w)%string
+  | None => check_with C09_round proj_all true c
+  end.
 
 (* C17: the shared caches are read-only; the hook sees what the cache holds *)
 Definition C17_round (c : ccfg) (r : round) : option string :=
